@@ -18,7 +18,7 @@
 #include <signal.h>
 #include <sys/stat.h>
 
-#include <urcu/urcu-memb.h>
+#include <urcu/urcu-mb.h>
 #include <urcu/rculfhash.h>
 extern "C" {
 void glue_rec_reset(unsigned long max_order);
@@ -123,7 +123,7 @@ static void wait_resize(struct cds_lfht *ht) { glue_wait_resize(ht); }
 
 extern "C" int LLVMFuzzerTestOneInput(const uint8_t *data, size_t size)
 {
-	if (!registered) { urcu_memb_register_thread(); registered = true; atexit(flush_stats); if (getenv("VERIF_HANG_S")) HANG_S = atol(getenv("VERIF_HANG_S")); std::thread(watchdog).detach(); }
+	if (!registered) { urcu_mb_register_thread(); registered = true; atexit(flush_stats); if (getenv("VERIF_HANG_S")) HANG_S = atol(getenv("VERIF_HANG_S")); std::thread(watchdog).detach(); }
 	if (size < 8) return 0;
 	FuzzedDataProvider fdp(data, size);
 	trace.clear();
@@ -161,8 +161,8 @@ extern "C" int LLVMFuzzerTestOneInput(const uint8_t *data, size_t size)
 		while ((1UL << rec_max_order) < effmax && rec_max_order < MAX_TABLE_ORDER - 1) rec_max_order++;
 	}
 	glue_rec_reset(rec_max_order);
-	struct cds_lfht *ht = custom ? _cds_lfht_new_with_alloc(init, mn, mx, flags, mm, &urcu_memb_flavor, &rec_alloc, NULL)
-				     : _cds_lfht_new(init, mn, mx, flags, mm, &urcu_memb_flavor, NULL);
+	struct cds_lfht *ht = custom ? _cds_lfht_new_with_alloc(init, mn, mx, flags, mm, &urcu_mb_flavor, &rec_alloc, NULL)
+				     : _cds_lfht_new(init, mn, mx, flags, mm, &urcu_mb_flavor, NULL);
 	n_cases++;
 	if (!pow2) {
 		cls[11]++;
@@ -182,7 +182,7 @@ extern "C" int LLVMFuzzerTestOneInput(const uint8_t *data, size_t size)
 	auto kill = [&](Node *n) { live.erase(std::find(live.begin(), live.end(), n)); n->live = false; };
 	auto check_all = [&](const char *when) {
 		// every stored node is found by lookup+duplicate walk; full scan = exactly the stored nodes, each once; count_nodes = model size
-		urcu_memb_read_lock();
+		urcu_mb_read_lock();
 		for (int key = 0; key < 8; key++) {
 			std::vector<Node *> seen; struct cds_lfht_iter it;
 			cds_lfht_lookup(ht, hpool[key], match, &key, &it);
@@ -209,7 +209,7 @@ extern "C" int LLVMFuzzerTestOneInput(const uint8_t *data, size_t size)
 		cds_lfht_count_nodes(ht, &ab, &cnt, &aa);
 		if (cnt != live.size()) fail("%s: cds_lfht_count_nodes = %lu, reference has %zu", when, cnt, live.size());
 		if ((flags & CDS_LFHT_ACCOUNTING) && (ab < 0 || aa < 0)) fail("%s: negative approximate count (%ld, %ld) with ACCOUNTING", when, ab, aa);
-		urcu_memb_read_unlock();
+		urcu_mb_read_unlock();
 		if (glue_ht_size(ht) < 1 || (eff_max && glue_ht_size(ht) > eff_max)) fail("%s: table has %lu buckets, outside [1, max_nr_buckets=%lu]", when, glue_ht_size(ht), eff_max);
 	};
 
@@ -224,14 +224,14 @@ extern "C" int LLVMFuzzerTestOneInput(const uint8_t *data, size_t size)
 			Node *n = new_node(key);
 			T("add k%d -> n%d", key, n->id);
 			if (count_key(key)) f_dup = true;
-			urcu_memb_read_lock(); cds_lfht_add(ht, h, &n->n); urcu_memb_read_unlock();
+			urcu_mb_read_lock(); cds_lfht_add(ht, h, &n->n); urcu_mb_read_unlock();
 			n->live = n->added = true; live.push_back(n);
 			break;
 		}
 		case 2: {	// add_unique
 			Node *n = new_node(key);
 			T("add_unique k%d (n%d)", key, n->id);
-			urcu_memb_read_lock(); struct cds_lfht_node *r = cds_lfht_add_unique(ht, h, match, &key, &n->n); urcu_memb_read_unlock();
+			urcu_mb_read_lock(); struct cds_lfht_node *r = cds_lfht_add_unique(ht, h, match, &key, &n->n); urcu_mb_read_unlock();
 			if (count_key(key) == 0) { if (r != &n->n) fail("add_unique(k%d) on an absent key did not insert its node", key); n->live = n->added = true; live.push_back(n); }
 			else { Node *e = (Node *)r; if (r == &n->n) fail("add_unique(k%d) inserted a duplicate although the key is present", key); if (!is_live(e) || e->key != key) fail("add_unique(k%d) returned a node that is not a stored node with that key", key); }
 			break;
@@ -239,7 +239,7 @@ extern "C" int LLVMFuzzerTestOneInput(const uint8_t *data, size_t size)
 		case 3: {	// add_replace
 			Node *n = new_node(key);
 			T("add_replace k%d (n%d)", key, n->id);
-			urcu_memb_read_lock(); struct cds_lfht_node *r = cds_lfht_add_replace(ht, h, match, &key, &n->n); urcu_memb_read_unlock();
+			urcu_mb_read_lock(); struct cds_lfht_node *r = cds_lfht_add_replace(ht, h, match, &key, &n->n); urcu_mb_read_unlock();
 			if (count_key(key) == 0) { if (r) fail("add_replace(k%d) on an absent key returned a node", key); }
 			else { Node *e = (Node *)r; if (!r) fail("add_replace(k%d) returned NULL although the key is present", key); if (!is_live(e) || e->key != key) fail("add_replace(k%d) returned a node that is not a stored node with that key", key); kill(e); }
 			n->live = n->added = true; live.push_back(n);
@@ -248,10 +248,10 @@ extern "C" int LLVMFuzzerTestOneInput(const uint8_t *data, size_t size)
 		case 4: {	// lookup (+ save iterator)
 			int slot = fdp.ConsumeIntegralInRange<int>(0, 2);
 			T("lookup k%d save=%d", key, slot);
-			urcu_memb_read_lock();
+			urcu_mb_read_lock();
 			struct cds_lfht_iter it; cds_lfht_lookup(ht, h, match, &key, &it);
 			Node *n = (Node *)cds_lfht_iter_get_node(&it);
-			urcu_memb_read_unlock();
+			urcu_mb_read_unlock();
 			if (!n && count_key(key)) fail("lookup(k%d) found nothing, reference has %d", key, count_key(key));
 			if (n && (!is_live(n) || n->key != key)) fail("lookup(k%d) returned a node that is not a stored node with that key", key);
 			if (n && slot < 2) { saved[slot].it = it; saved[slot].n = n; saved[slot].set = true; }
@@ -260,11 +260,11 @@ extern "C" int LLVMFuzzerTestOneInput(const uint8_t *data, size_t size)
 		case 5: {	// replace through a fresh lookup
 			T("lookup+replace k%d", key);
 			Node *nn = new_node(key);
-			urcu_memb_read_lock();
+			urcu_mb_read_lock();
 			struct cds_lfht_iter it; cds_lfht_lookup(ht, h, match, &key, &it);
 			Node *o = (Node *)cds_lfht_iter_get_node(&it);
 			int r = o ? cds_lfht_replace(ht, &it, h, match, &key, &nn->n) : -ENOENT;
-			urcu_memb_read_unlock();
+			urcu_mb_read_unlock();
 			if (!o) { if (count_key(key)) fail("lookup(k%d) before replace found nothing, reference has %d", key, count_key(key)); break; }
 			if (r) fail("replace of stored node %d returned %d", o->id, r);
 			kill(o); nn->live = nn->added = true; live.push_back(nn);
@@ -276,7 +276,7 @@ extern "C" int LLVMFuzzerTestOneInput(const uint8_t *data, size_t size)
 			Node *o = saved[slot].n; int k2 = o->key; Node *nn = new_node(k2);
 			T("replace via saved iter %d (n%d k%d) -> n%d", slot, o->id, k2, nn->id);
 			cls[12]++;
-			urcu_memb_read_lock(); int r = cds_lfht_replace(ht, &saved[slot].it, hpool[k2], match, &k2, &nn->n); urcu_memb_read_unlock();
+			urcu_mb_read_lock(); int r = cds_lfht_replace(ht, &saved[slot].it, hpool[k2], match, &k2, &nn->n); urcu_mb_read_unlock();
 			saved[slot].set = false;
 			if (is_live(o)) { if (r) fail("replace of stored node %d through an earlier iterator returned %d", o->id, r); kill(o); nn->live = nn->added = true; live.push_back(nn); }
 			else if (r >= 0) fail("replace of already removed node %d returned %d", o->id, r);
@@ -287,7 +287,7 @@ extern "C" int LLVMFuzzerTestOneInput(const uint8_t *data, size_t size)
 			Node *n = all[fdp.ConsumeIntegralInRange<size_t>(0, all.size() - 1)];
 			if (!n->added) break;	// only nodes that have been in the table may be passed to del
 			T("del n%d (k%d, %s)", n->id, n->key, is_live(n) ? "stored" : "removed");
-			urcu_memb_read_lock(); int r = cds_lfht_del(ht, &n->n); urcu_memb_read_unlock();
+			urcu_mb_read_lock(); int r = cds_lfht_del(ht, &n->n); urcu_mb_read_unlock();
 			if (is_live(n)) { if (r) fail("del of stored node %d returned %d", n->id, r); kill(n); }
 			else { cls[15]++; if (r >= 0) fail("del of already removed node %d returned %d", n->id, r); }
 			break;
@@ -326,14 +326,14 @@ extern "C" int LLVMFuzzerTestOneInput(const uint8_t *data, size_t size)
 		}
 		case 13: {	// duplicate walk for one key
 			T("walk k%d", key);
-			urcu_memb_read_lock();
+			urcu_mb_read_lock();
 			struct cds_lfht_iter it; int c = 0;
 			for (cds_lfht_lookup(ht, h, match, &key, &it); cds_lfht_iter_get_node(&it); cds_lfht_next_duplicate(ht, match, &key, &it)) {
 				Node *n = (Node *)cds_lfht_iter_get_node(&it);
 				if (!is_live(n) || n->key != key) fail("duplicate walk for key %d returned a node that is not stored with that key", key);
 				if (++c > (int)all.size() + 1) fail("duplicate walk does not terminate");
 			}
-			urcu_memb_read_unlock();
+			urcu_mb_read_unlock();
 			if (c != count_key(key)) fail("duplicate walk for key %d found %d nodes, reference has %d", key, c, count_key(key));
 			break;
 		}
@@ -342,16 +342,16 @@ extern "C" int LLVMFuzzerTestOneInput(const uint8_t *data, size_t size)
 	}
 	check_all("final");
 	// empty the table, destroy must succeed
-	urcu_memb_read_lock();
+	urcu_mb_read_lock();
 	for (Node *n : std::vector<Node *>(live)) { int r = cds_lfht_del(ht, &n->n); if (r) fail("final del of stored node %d returned %d", n->id, r); }
-	urcu_memb_read_unlock();
+	urcu_mb_read_unlock();
 	live.clear();
 	wait_resize(ht);
 	glue_set_destroying(1);
 	int r = cds_lfht_destroy(ht, NULL);
 	if (r) fail("cds_lfht_destroy of an empty table returned %d", r);
-	urcu_memb_synchronize_rcu();
-	if (flags & CDS_LFHT_AUTO_RESIZE) { urcu_memb_barrier(); for (int i = 0; i < 400 && custom; i++) { { std::lock_guard<std::mutex> g(rec_mu); if (live_allocs.empty()) break; } usleep(500); } }
+	urcu_mb_synchronize_rcu();
+	if (flags & CDS_LFHT_AUTO_RESIZE) { urcu_mb_barrier(); for (int i = 0; i < 400 && custom; i++) { { std::lock_guard<std::mutex> g(rec_mu); if (live_allocs.empty()) break; } usleep(500); } }
 	if (mmsel == 4) { for (int i = 0; i < 4000 && glue_rec_outstanding(); i++) usleep(250); if (glue_rec_outstanding()) fail("recording bucket allocator: %d bucket levels never freed after cds_lfht_destroy", glue_rec_outstanding()); }
 	glue_set_destroying(0);
 	if (custom) {
